@@ -99,9 +99,12 @@ func fineFailover(name string) *Scenario {
 }
 
 func finePlan(prop, tier string) []PlanItem {
-	p := 1
+	// two preemptions already in the quick tier: the windows are short (60-170 points)
+	// and most two-cause races need one preemption to let the first cause run and a second
+	// one to overtake its follow-up; thorough adds a third
+	p := 2
 	if tier == "thorough" {
-		p = 2
+		p = 3
 	}
 	var items []PlanItem
 	switch prop {
@@ -124,14 +127,19 @@ func finePlan(prop, tier string) []PlanItem {
 			PlanItem{fineGraceStop("fine/stop-vs-grace-expiry", Item{Do: "stop"}), p},
 			PlanItem{fineGraceStop("fine/stopctx-vs-grace-expiry", Item{Do: "stopctx", DeleteKey: true}), p})
 	case "C07":
-		items = append(items, PlanItem{fineFailover("fine/failover-watch-vs-becomeLeader"), p + 1})
+		items = append(items, PlanItem{fineFailover("fine/failover-watch-vs-becomeLeader"), p})
 		late := fineFailover("fine/failover-late-watch-vs-becomeLeader")
 		late.HoldWatch = true
 		late.Horizon += 600 * ms
-		items = append(items, PlanItem{late, p + 1})
+		items = append(items, PlanItem{late, p})
 	case "C08", "C19":
+		if prop == "C19" {
+			// a demotion that needs no store operation (ValidateTokenOrDemote with an already
+			// cancelled context) racing with the promotion and its callback goroutine
+			items = append(items, PlanItem{fineAcquire("fine/cancelled-validateOrDemote-vs-becomeLeader", Item{Do: "validateOrDemote", CtxTimeout: -1}), p})
+		}
 		items = append(items,
-			PlanItem{fineDemote("fine/validateOrDemote-vs-demotion", Item{Do: "validateOrDemote"}), p + 1},
+			PlanItem{fineDemote("fine/validateOrDemote-vs-demotion", Item{Do: "validateOrDemote"}), p},
 			PlanItem{fineDemote("fine/stop-vs-demotion", Item{Do: "stop"}), p},
 			PlanItem{fineAcquire("fine/stop-vs-becomeLeader", Item{Do: "stop"}), p})
 	case "C11":
